@@ -327,7 +327,7 @@ def c18_streams(tier, rng, ctx):
                         root = "%s/%d" % (sb, k)
                         env2 = {kk: (None if v is None else ":".join((root + p) if p else p for p in v.split(":"))) for kk, v in env.items()}
                         files2 = [root + x for x in files]
-                        gs.append((env2, ["\t".join(["vfs_config_dir_s", envspec(env2), hx(name), ",".join(hx(x) for x in files2)])]))
+                        gs.append((env2, ["\t".join(["vfs_config_dir_s", envspec(env2), hx(name), ",".join(hx(x) for x in files2), hx(root)])]))
     sts.append(Stream("vfs-config-dir-memfs", "mirror", None, groups=gm, judge=lambda l, o: True, exhaustive=True,
                       rule="Memfs::config_dir: subsets of candidate directories containing the file x settings of HOME / XDG_CONFIG_HOME / XDG_CONFIG_DIRS"))
     sts.append(Stream("vfs-config-dir-stdfs", "mirror", None, groups=gs, judge=lambda l, o: True,
